@@ -36,6 +36,8 @@ _quote_split.__name__ = "quote_split"
 def build(tier, seed):
     set_tier(tier)
     tasks = [a_task(PROP, calls.strip_paren), a_task(PROP, calls.assoc_getitem), a_task(PROP, calls.assoc_contains), a_task(PROP, calls.assoc_remove_last), a_task(PROP, _quote_split),
+             Task(f"{PROP}.S.masking", PROP, "literal masking loops", lambda: __import__("contracts.masking", fromlist=["x"]).obligations(PROP, "ford.sourceform", lambda: __import__("bounded.c08", fromlist=["x"]).search())),
+             Task(f"{PROP}.S.casefold.attribs", PROP, "attribute membership tests", lambda: __import__("contracts.casefold", fromlist=["x"]).attribute_obligations(PROP, replay=lambda: __import__("bounded.c08", fromlist=["x"]).search())),
              Task(f"{PROP}.B.call_patterns", PROP, "CALL_RE/SUBCALL_RE/ARITH_GOTO_RE/FORMAT_RE", lambda: rx_calls.obligations(PROP, "patterns")), bounded_task()]
     for part in rx_calls.reach_parts():
         tasks.append(Task(f"{PROP}.B.{part}", PROP, part, (lambda part=part: rx_calls.obligations(PROP, part))))
